@@ -52,78 +52,7 @@ func runC07(c *Ctx) {
 	p := c.P
 	f := p.Fn("rt/middleware.NegotiateContentType")
 	negotiateSelection(c, "R07.1", "R07.2")
-	offers := f.Params[1]
-	isOfferElem := func(o Origin) bool {
-		ad, ok := derefLoad(o.V)
-		if !ok {
-			return false
-		}
-		ia, ok := ad.(*ssa.IndexAddr)
-		return ok && ia.X == ssa.Value(offers)
-	}
-	// R07.6 matching forms
-	isNormOffer := vOrigins(oCallWhere(-1, "rt/middleware.normalizeOffer", func(n *ssa.Call) bool {
-		ok, _ := allOrigins(n.Call.Args[0], isOfferElem)
-		return ok
-	}))
-	isSpecValue := func(v ssa.Value) bool {
-		return vFieldLoad(acceptSpecT, "Value", nil)(v) || vFieldLoadO(acceptSpecT, "Value")(v)
-	}
-	nPrefix := 0
-	for _, ci := range callsIn(f, "strings.HasPrefix") {
-		a := ci.Common().Args
-		nPrefix++
-		okO := isNormOffer(a[0])
-		okP := false
-		switch x := a[1].(type) {
-		case *ssa.Slice:
-			if isSpecValue(x.X) && x.Low == nil && x.High != nil {
-				if bo, ok := x.High.(*ssa.BinOp); ok && bo.Op == token.SUB {
-					if k, okk := constInt(bo.Y); okk && k == 1 {
-						if l := asCall(bo.X); l != nil && calleeName(&l.Call) == "builtin len" && isSpecValue(l.Call.Args[0]) {
-							okP = true
-						}
-					}
-				}
-			}
-		case *ssa.Call:
-			if calleeName(&x.Call) == "strings.TrimSuffix" && isSpecValue(x.Call.Args[0]) {
-				s, _ := constString(x.Call.Args[1])
-				okP = s == "*"
-			}
-		}
-		isWild := factBool(func(v ssa.Value) bool {
-			h := asCall(v)
-			if h == nil || calleeName(&h.Call) != "strings.HasSuffix" || !isSpecValue(h.Call.Args[0]) {
-				return false
-			}
-			s, _ := constString(h.Call.Args[1])
-			return s == "/*"
-		}, true)
-		c.obI("R07.6", ci, "subtype-wildcard-prefix-keeps-slash", okO && okP && guardedBy(ci, nil, isWild),
-			"a type/* range matches an offer only by the prefix 'type/' (the range without its final '*'), compared with the normalised offer", "the prefix compared is not spec.Value minus its last byte: "+describe(a[1]))
-	}
-	c.obF("R07.6", f, "has-subtype-wildcard", nPrefix == 1, "NegotiateContentType knows type/* ranges", "")
-	nExact := 0
-	for _, in := range instrs(f) {
-		bo, ok := in.(*ssa.BinOp)
-		if !ok || bo.Op != token.EQL {
-			continue
-		}
-		if (isSpecValue(bo.X) && isNormOffer(bo.Y)) || (isSpecValue(bo.Y) && isNormOffer(bo.X)) {
-			nExact++
-		}
-	}
-	nStar := 0
-	for _, in := range instrs(f) {
-		if bo, ok := in.(*ssa.BinOp); ok && bo.Op == token.EQL {
-			if k, isK := constString(bo.Y); isK && k == "*/*" && isSpecValue(bo.X) {
-				nStar++
-			}
-		}
-	}
-	c.obF("R07.6", f, "knows-any-range", nStar == 1, "NegotiateContentType knows the */* range", fmt.Sprintf("%d comparisons", nStar))
-	c.obF("R07.6", f, "exact-range-compares-normalised-offer", nExact == 1, "an exact range matches by equality with the normalised offer", fmt.Sprintf("%d comparisons", nExact))
+	negotiateMatchers(c, "R07.6")
 
 	// NegotiateContentEncoding
 	fe := p.Fn("rt/middleware.NegotiateContentEncoding")
@@ -192,6 +121,20 @@ func runC07(c *Ctx) {
 	}
 	c.obF("R07.4", pa, "parameter-skip-loop", nSkip >= 1, "ParseAccept skips media-type parameters before q=", fmt.Sprintf("%d skip sites", nSkip))
 
+	// every line of the header is parsed: the loop over the header's values is left only when they are exhausted
+	{
+		var lines []sliceLoop
+		for _, l := range sliceLoops(pa, nil) {
+			if lk, ok := l.X.(*ssa.Lookup); ok && lk.X == ssa.Value(pa.Params[0]) {
+				lines = append(lines, l)
+			}
+		}
+		c.obF("R07.4", pa, "iterates-header-lines", len(lines) == 1, "ParseAccept iterates over the values of the header", fmt.Sprintf("%d loops", len(lines)))
+		for _, l := range lines {
+			c.obI("R07.4", l.Elem, "all-header-lines-parsed", l.noEarlyExit(), "an empty or malformed element ends the parse of its own header line only: the loop over the header's lines is never left before the last line (a later line can carry the preferred range)", "a path leaves the loop over the header lines early (break/return from the body)")
+		}
+	}
+
 	// R07.4 accumulators
 	eq := p.Fn("rt/middleware/header.expectQuality")
 	nMul := 0
@@ -250,6 +193,9 @@ func runC07(c *Ctx) {
 		_, a := callArgs(&n.Call)
 		c.obI("R07.5", n, "offers-are-route-produces", vFieldLoadO(routeEntryT, "Produces")(a[1]), "the offers are the operation's produces list (default included by AddRoute)", "")
 	}
+	// the format Respond finds cached in the request is one negotiated for the request IT was handed, not one cached by
+	// the validation stage's private request copy (whose offers are ordered differently)
+	ruleMemoContextRooted(c, "R07.5")
 	vr := p.Fn("rt/middleware.validateRequest")
 	rfc := callsIn(vr, "(*rt/middleware.validation).responseFormat")
 	prm := callsIn(vr, "(*rt/middleware.validation).parameters")
@@ -528,4 +474,82 @@ func negotiateSelection(c *Ctx, r1, r2 string) {
 			c.obI(r2, r, "shortcut-only-without-ranges", guardedBy(r, nil, noSpecs), "an offer is returned without comparing ranges only when the Accept header yielded no range at all", "an offer is returned unconditionally")
 		}
 	}
+}
+
+// negotiateMatchers: the three matching forms of NegotiateContentType (shared by C07 and C08).
+func negotiateMatchers(c *Ctx, rule string) {
+	p := c.P
+	f := p.Fn("rt/middleware.NegotiateContentType")
+	offers := f.Params[1]
+	isOfferElem := func(o Origin) bool {
+		ad, ok := derefLoad(o.V)
+		if !ok {
+			return false
+		}
+		ia, ok := ad.(*ssa.IndexAddr)
+		return ok && ia.X == ssa.Value(offers)
+	}
+	// R07.6 matching forms
+	isNormOffer := vOrigins(oCallWhere(-1, "rt/middleware.normalizeOffer", func(n *ssa.Call) bool {
+		ok, _ := allOrigins(n.Call.Args[0], isOfferElem)
+		return ok
+	}))
+	isSpecValue := func(v ssa.Value) bool {
+		return vFieldLoad(acceptSpecT, "Value", nil)(v) || vFieldLoadO(acceptSpecT, "Value")(v)
+	}
+	nPrefix := 0
+	for _, ci := range callsIn(f, "strings.HasPrefix") {
+		a := ci.Common().Args
+		nPrefix++
+		okO := isNormOffer(a[0])
+		okP := false
+		switch x := a[1].(type) {
+		case *ssa.Slice:
+			if isSpecValue(x.X) && x.Low == nil && x.High != nil {
+				if bo, ok := x.High.(*ssa.BinOp); ok && bo.Op == token.SUB {
+					if k, okk := constInt(bo.Y); okk && k == 1 {
+						if l := asCall(bo.X); l != nil && calleeName(&l.Call) == "builtin len" && isSpecValue(l.Call.Args[0]) {
+							okP = true
+						}
+					}
+				}
+			}
+		case *ssa.Call:
+			if calleeName(&x.Call) == "strings.TrimSuffix" && isSpecValue(x.Call.Args[0]) {
+				s, _ := constString(x.Call.Args[1])
+				okP = s == "*"
+			}
+		}
+		isWild := factBool(func(v ssa.Value) bool {
+			h := asCall(v)
+			if h == nil || calleeName(&h.Call) != "strings.HasSuffix" || !isSpecValue(h.Call.Args[0]) {
+				return false
+			}
+			s, _ := constString(h.Call.Args[1])
+			return s == "/*"
+		}, true)
+		c.obI(rule, ci, "subtype-wildcard-prefix-keeps-slash", okO && okP && guardedBy(ci, nil, isWild),
+			"a type/* range matches an offer only by the prefix 'type/' (the range without its final '*'), compared with the normalised offer", "the prefix compared is not spec.Value minus its last byte: "+describe(a[1]))
+	}
+	c.obF(rule, f, "has-subtype-wildcard", nPrefix == 1, "NegotiateContentType knows type/* ranges", "")
+	nExact := 0
+	for _, in := range instrs(f) {
+		bo, ok := in.(*ssa.BinOp)
+		if !ok || bo.Op != token.EQL {
+			continue
+		}
+		if (isSpecValue(bo.X) && isNormOffer(bo.Y)) || (isSpecValue(bo.Y) && isNormOffer(bo.X)) {
+			nExact++
+		}
+	}
+	nStar := 0
+	for _, in := range instrs(f) {
+		if bo, ok := in.(*ssa.BinOp); ok && bo.Op == token.EQL {
+			if k, isK := constString(bo.Y); isK && k == "*/*" && isSpecValue(bo.X) {
+				nStar++
+			}
+		}
+	}
+	c.obF(rule, f, "knows-any-range", nStar == 1, "NegotiateContentType knows the */* range", fmt.Sprintf("%d comparisons", nStar))
+	c.obF(rule, f, "exact-range-compares-normalised-offer", nExact == 1, "an exact range matches by equality with the normalised offer", fmt.Sprintf("%d comparisons", nExact))
 }
